@@ -1,5 +1,6 @@
 """Structured generators of the Wifi family (RadioTap, Dot11 classes, RC4/RSN EAPOL) for the wire checks C01–C04.
 Packets are built byte by byte here, independently of libtins."""
+from checks import wire_common as wc
 import struct
 
 MGMT = {  # class -> (subtype, fixed-parameter size)
@@ -278,7 +279,7 @@ def typed_op(rng):
     blen = lambda lo=1: rng.choice([lo, lo + 1, 7, 8, 9, 32, rng.randint(lo, 60)])
     suites = [0x01ac0f00, 0x02ac0f00, 0x04ac0f00, 0x05ac0f00, 0x06ac0f00]
     choices = [
-        lambda: f"ssid {hexs(rb(rng, rng.choice([0, 1, 7, 8, 9, 32, 255])))}",
+        lambda: f"ssid {hexs(wc.textish(rng, rng.choice([0, 1, 6, 7, 8, 9, 32, 255])))}",
         lambda: "supported_rates " + (",".join(str(rng.choice([2, 4, 11, 22, 12, 18, 24, 36, 48, 72, 96, 108, rng.randrange(128)])) for _ in range(rng.choice([0, 1, 4, 8, 9]))) or "-"),
         lambda: "extended_supported_rates " + (",".join(str(rng.randrange(128)) for _ in range(rng.choice([0, 1, 4, 8, 9]))) or "-"),
         lambda: f"qos_capability {u8(rng)}",
@@ -301,7 +302,7 @@ def typed_op(rng):
         lambda: f"erp_information {u8(rng)}",
         lambda: f"bss_load {u16()} {u8(rng)} {u16()}",
         lambda: f"tim {u8(rng)} {u8(rng)} {u8(rng)} {hexs(rb(rng, rng.choice([1, 2, 5, 6, 30])))}",
-        lambda: f"challenge_text {hexs(rb(rng, rng.choice([1, 8, 9, 128, 253])))}",
+        lambda: f"challenge_text {hexs(wc.textish(rng, rng.choice([1, 8, 9, 128, 253])))}",
         lambda: f"vendor_specific {rb(rng, 3).hex()} {hexs(rb(rng, rng.choice([0, 1, 4, 5, 6, 30])))}",
         lambda: ("rsn_information " + f"{rng.choice([1, 1, 2, 0xffff])} {rng.choice(suites)} "
                  + (",".join(str(rng.choice(suites)) for _ in range(rng.choice([0, 1, 2, 3]))) or "-") + " "
